@@ -62,10 +62,17 @@ def gen_schedule(rng, nev=None, typ=None):
     pw, pt = rng.choice([(0.35, 0.25), (0.25, 0.4), (0.45, 0.2)])
     gates = 0
     external = False
+    # gcounter: increments of 0 are frequent and some node only ever increments by 0 (its entry stays 0: gob omits
+    # zero fields, a decoder must not inherit the previous entry's count)
+    zero_node = rng.randrange(n) if typ == "gcounter" and rng.random() < 0.3 else None
+    # a node that is down at first (dials refused) and comes up later; delivery is owed to it only for updates
+    # committed while it is up
+    late = rng.randrange(n) if typ == "gcounter" and n >= 3 and rng.random() < 0.3 else None
+    up_at = rng.randint(nev // 3, max(nev // 3, 2 * nev // 3)) if late is not None and nev is not None else None
 
     def wr(i):
         if typ == "gcounter":
-            return ["w", i, rng.randint(1, 5)]
+            return ["w", i, 0 if (i == zero_node or rng.random() < 0.15) else rng.randint(1, 5)]
         return ["w", i, rng.choice([1, 1, 2]), rng.choice(elems)]
 
     def ext():
@@ -82,8 +89,12 @@ def gen_schedule(rng, nev=None, typ=None):
                 out.append([e[0], i]); open_[i] = False
         return out
 
-    for _ in range(nev):
-        i = rng.randrange(n)
+    down = {late} if late is not None else set()
+    for step in range(nev):
+        if late is not None and step == up_at:
+            evs.append(["up", late]); down = set()
+            continue
+        i = rng.choice([j for j in range(n) if j not in down])
         x = rng.random()
         if gates < 2 and x < 0.07:
             gates += 1
@@ -94,7 +105,7 @@ def gen_schedule(rng, nev=None, typ=None):
         elif x < 0.07 + pw:
             evs.append(wr(i)); open_[i] = True
         elif x < 0.07 + pw + pt:
-            evs.append(["t", rng.randrange(n)])
+            evs.append(["t", rng.choice([j for j in range(n) if j not in down])])
         elif x < 0.07 + pw + pt + 0.07:
             evs.append(["r", i, ext()]); external = True
         else:
@@ -102,9 +113,15 @@ def gen_schedule(rng, nev=None, typ=None):
                 evs.append(["a", i] if rng.random() < 0.4 else ["c", i]); open_[i] = False
             else:
                 evs.append(["t", i])
+    if down:
+        evs.append(["up", late])
+    if late is not None and rng.random() < 0.7:
+        # the last update of some node lands after the late node came up
+        i = rng.choice([j for j in range(n) if j != late])
+        evs.append(wr(i)); open_[i] = True
     for i in range(n):
         if open_[i]:
-            evs.append(["c", i] if rng.random() < 0.6 else ["a", i])
+            evs.append(["c", i] if rng.random() < 0.6 or late is not None else ["a", i])
     fin = len(evs)
     for _ in range(2):
         order = list(range(n)); rng.shuffle(order)
@@ -112,9 +129,12 @@ def gen_schedule(rng, nev=None, typ=None):
             evs.append(["t", i])
     # all stable states must be equivalent now (sets: only if nothing was injected from outside the mesh,
     # an external value is never re-broadcast; gcounter: compared on the mesh's own entries)
-    if typ == "gcounter" or (typ == "lww" and not external):
+    if late is None and (typ == "gcounter" or (typ == "lww" and not external)):
         evs.append(["fin"])
-    return {"type": typ, "n": n, "self_in_peers": self_in, "dead_peer": dead, "events": evs, "finale_from": fin, "kind": "schedule"}
+    c = {"type": typ, "n": n, "self_in_peers": self_in, "dead_peer": dead, "events": evs, "finale_from": fin, "kind": "schedule"}
+    if late is not None:
+        c["late"] = [late]
+    return c
 
 
 # ------------------------------------------------------------------ implementation-side oracle
@@ -153,6 +173,8 @@ def oracle(case, res):
     inflight = [0] * n
     open_ = [False] * n
     recvd = [dict() for _ in range(n)]
+    up = [j not in case.get("late", []) for j in range(n)]
+    owed = [[0] * n for _ in range(n)]   # owed[i][j]: i's committed total at its last commit made while j was up
     prev = [{"v": 0, "s": 0, "h": False, "need": 0, "ve": {}, "se": {}} for _ in range(n)]
     for t, (ev, snaps) in enumerate(zip(case["events"], res["snaps"])):
         ticked = None
@@ -161,20 +183,26 @@ def oracle(case, res):
             if k == "fin":
                 continue
             i = pe[1]
+            if k == "up":
+                up[i] = True
+                continue
             if k == "w":
                 inflight[i] += pe[2] if typ == "gcounter" else 0; open_[i] = True
             elif k == "c":
                 committed[i] += inflight[i]; inflight[i] = 0; open_[i] = False
+                for j in range(n):
+                    if up[j]:
+                        owed[i][j] = committed[i]
             elif k == "a":
                 inflight[i] = 0; open_[i] = False
             elif k in ("t", "t*"):
                 if typ == "gcounter" and prev[i]["need"] > 0:
                     for j in range(n):
-                        if j != i:
+                        if j != i and up[j]:
                             recvd[j] = emax(recvd[j], prev[i]["se"])
                             recvd[i] = emax(recvd[i], prev[j]["se"])
                 if k == "t":
-                    ticked = (i, committed[i])
+                    ticked = (i, list(owed[i]))
             elif k == "r" and typ == "gcounter":
                 recvd[i] = emax(recvd[i], {str(a): b for a, b in pe[2]})
                 rep = res["replies"][t] if ev[0] == "r" else None
@@ -199,16 +227,16 @@ def oracle(case, res):
                 if s["ve"].get(w, 0) < c:
                     add("received-state-lost", "event %d %s: node %d received %s:%d earlier and now holds %d" % (t, ev, j, w, c, s["ve"].get(w, 0)))
         if ticked and typ == "gcounter":
-            i, ci = ticked
+            i, ow = ticked
             for j in range(n):
-                if snaps[j]["ve"].get(str(i), 0) < ci:
-                    add("owed-broadcast-consumed", "event %d: after a broadcast round of node %d, node %d holds %d of its %d committed increments" % (t, i, j, snaps[j]["ve"].get(str(i), 0), ci))
+                if up[j] and snaps[j]["ve"].get(str(i), 0) < ow[j]:
+                    add("owed-broadcast-consumed", "event %d: after a broadcast round of node %d, node %d (reachable since before that commit) holds %d of the %d increments committed" % (t, i, j, snaps[j]["ve"].get(str(i), 0), ow[j]))
         prev = snaps
     if typ == "gcounter" and len(res["snaps"]) == len(case["events"]) and case.get("finale_from") is not None and res["snaps"]:
         last = res["snaps"][-1]
         for j in range(n):
             for i in range(n):
-                if last[j]["ve"].get(str(i), 0) != committed[i]:
+                if owed[i][j] == committed[i] and last[j]["ve"].get(str(i), 0) != committed[i]:
                     add("no-convergence", "after the finale node %d holds %d increments of node %d, committed %d" % (j, last[j]["ve"].get(str(i), 0), i, committed[i]))
     return fails
 
@@ -220,7 +248,7 @@ def nontrivial(case):
             return True
         for pe in parts(ev):
             k = pe[0]
-            if k == "fin":
+            if k in ("fin", "up"):
                 continue
             i = pe[1]
             if k == "w":
@@ -250,8 +278,12 @@ def to_coq(case, res):
     n = case["n"]
     evs = []
     prev_need = [0] * n
+    up = [j not in case.get("late", []) for j in range(n)]
     for idx, (ev, snaps) in enumerate(zip(case["events"], res["snaps"])):
         if ev[0] == "fin":
+            continue
+        if ev[0] == "up":
+            up[ev[1]] = True
             continue
         t0 = list(res["t0"][idx] or [])
         seq = []
@@ -283,7 +315,7 @@ def to_coq(case, res):
         if k in ("w", "c", "a"):
             seq.append(simple(ev))
         elif k in ("t", "gt"):
-            rs = [j for j in range(n) if j != i]
+            rs = [j for j in range(n) if j != i and up[j]]
             seq.append("ETick %s %s" % (vlib.coq_Z(i), coq_zl(rs)))
             if k == "gt":
                 seq += [simple(pe) for pe in ev[2]]
@@ -310,8 +342,12 @@ def to_coq_fine(case, res):
     n = case["n"]
     evs = []
     prev_need = [0] * n
+    up = [j not in case.get("late", []) for j in range(n)]
     for idx, (ev, snaps) in enumerate(zip(case["events"], res["snaps"])):
         if ev[0] == "fin":
+            continue
+        if ev[0] == "up":
+            up[ev[1]] = True
             continue
         t0 = list(res["t0"][idx] or [])
         seq = []
@@ -346,7 +382,7 @@ def to_coq_fine(case, res):
         if k in ("w", "c", "a"):
             seq.append(simple(ev))
         elif k in ("t", "gt"):
-            rs = [j for j in range(n) if j != i]
+            rs = [j for j in range(n) if j != i and up[j]]
             seq.append("FBegin %s %s" % (vlib.coq_Z(i), coq_zl(rs)))
             if k == "gt":      # the local section runs after the payload was read, before any call is served
                 seq += [simple(pe) for pe in ev[2]]
@@ -417,7 +453,7 @@ def run(ctx):
     for c in cases:
         r = byid[c["id"]]
         c["_res"] = r
-        ctx.add_case(json.dumps([c.get("type"), c["n"], c["self_in_peers"], c.get("dead_peer", False), c["events"]]), nontrivial(c))
+        ctx.add_case(json.dumps([c.get("type"), c["n"], c["self_in_peers"], c.get("dead_peer", False), c.get("late"), c["events"]]), nontrivial(c))
         for ev in c["events"]:
             dist["events"][ev[0]] = dist["events"].get(ev[0], 0) + 1
         dist["n"][str(c["n"])] = dist["n"].get(str(c["n"]), 0) + 1
